@@ -39,6 +39,19 @@ instance (sr : SlotRange) : Decidable (WfSR sr) := by unfold WfSR; infer_instanc
 instance (nm : NodeMap) : Decidable (WfMap nm) := by unfold WfMap; infer_instance
 instance (c : Config) : Decidable (WfCfg c) := by unfold WfCfg; infer_instance
 
+/-- numbers fit `usize`; nothing about the order or overlap of the ranges -/
+def BdRanges (l : RangeList) : Prop := l.length ≤ u64Max ∧ ∀ r ∈ l, r.s ≤ u64Max ∧ r.e ≤ u64Max
+
+def BdSR (sr : SlotRange) : Prop := BdRanges sr.ranges ∧ sr.tag.EpochOk
+
+instance (l : RangeList) : Decidable (BdRanges l) := by unfold BdRanges; infer_instance
+instance (sr : SlotRange) : Decidable (BdSR sr) := by unfold BdSR; infer_instance
+
+theorem WfRanges.bd {l : RangeList} (h : WfRanges l) : BdRanges l := ⟨h.2.1, h.2.2⟩
+theorem WfSR.bd {sr : SlotRange} (h : WfSR sr) : BdSR sr := ⟨h.1.bd, h.2⟩
+theorem WfSR.compacted {sr : SlotRange} (h : WfSR sr) : sr.compacted = sr := by
+  cases sr; simp only [SlotRange.compacted]; congr; exact h.1.1
+
 /-! ## ranges -/
 
 theorem sep_not_mem_decimal (n : Nat) : (45 : UInt8) ∉ decimal n := by
@@ -61,14 +74,18 @@ theorem parseRanges_map (l : List Range) (rest : List Str) (h : ∀ r ∈ l, r.s
     simp only [List.length_cons, List.map_cons, List.cons_append, parseRanges]
     rw [parseSlotRange_toStr x hx.1 hx.2, ih (fun r hr => h r (List.mem_cons_of_mem _ hr))]
 
-theorem RangeList.parse_toStrings (l : RangeList) (rest : List Str) (h : WfRanges l) :
-    RangeList.parse (RangeList.toStrings l ++ rest) = some (l, rest) := by
+/-- whatever the list looks like, its textual form parses to its compacted form -/
+theorem RangeList.parse_toStrings_bd (l : RangeList) (rest : List Str) (h : BdRanges l) :
+    RangeList.parse (RangeList.toStrings l ++ rest) = some (compact l, rest) := by
   unfold RangeList.toStrings
   simp only [List.cons_append, RangeList.parse]
-  rw [parseUnsigned_decimal _ h.2.1]
+  rw [parseUnsigned_decimal _ h.1]
   simp only
-  rw [parseRanges_map l rest h.2.2]
-  simp only [h.1]
+  rw [parseRanges_map l rest h.2]
+
+theorem RangeList.parse_toStrings (l : RangeList) (rest : List Str) (h : WfRanges l) :
+    RangeList.parse (RangeList.toStrings l ++ rest) = some (l, rest) := by
+  rw [RangeList.parse_toStrings_bd l rest h.bd, h.1]
 
 theorem parseRanges_append : ∀ (n : Nat) (ts : List Str) (rs : List Range) (rest ext : List Str),
     parseRanges n ts = some (rs, rest) → parseRanges n (ts ++ ext) = some (rs, rest ++ ext) := by
@@ -245,10 +262,10 @@ theorem MigrationMeta.fromStrings_length (ts : List Str) (m : MigrationMeta) (re
   | [], h | [_], h | [_, _], h | [_, _, _], h | [_, _, _, _], h => simp [MigrationMeta.fromStrings] at h
 
 theorem taggedRest_rt (mk : MigrationMeta → Tag) (rl : RangeList) (m : MigrationMeta) (rest : List Str)
-    (h1 : WfRanges rl) (h2 : m.epoch ≤ u64Max) :
-    taggedRest mk (RangeList.toStrings rl ++ m.intoStrings ++ rest) = some (⟨rl, mk m⟩, rest) := by
+    (h1 : BdRanges rl) (h2 : m.epoch ≤ u64Max) :
+    taggedRest mk (RangeList.toStrings rl ++ m.intoStrings ++ rest) = some (⟨compact rl, mk m⟩, rest) := by
   unfold taggedRest
-  rw [List.append_assoc, RangeList.parse_toStrings rl _ h1]
+  rw [List.append_assoc, RangeList.parse_toStrings_bd rl _ h1]
   simp only
   rw [MigrationMeta.rt m rest h2]
 
@@ -256,9 +273,9 @@ theorem upper_migrating : (upperA MIGRATING_TAG == MIGRATING_TAG) = true := by d
 theorem upper_importing_ne : (upperA IMPORTING_TAG == MIGRATING_TAG) = false := by decide
 theorem upper_importing : (upperA IMPORTING_TAG == IMPORTING_TAG) = true := by decide
 
-/-- **slot range round trip** (with any continuation of the input) -/
-theorem SlotRange.rt (sr : SlotRange) (rest : List Str) (h : WfSR sr) :
-    SlotRange.fromStrings (sr.intoStrings ++ rest) = some (sr, rest) := by
+/-- **slot range, any lists**: the textual form parses to the compacted slot range -/
+theorem SlotRange.rt_bd (sr : SlotRange) (rest : List Str) (h : BdSR sr) :
+    SlotRange.fromStrings (sr.intoStrings ++ rest) = some (sr.compacted, rest) := by
   obtain ⟨rl, tag⟩ := sr
   cases tag with
   | migrating m =>
@@ -267,14 +284,19 @@ theorem SlotRange.rt (sr : SlotRange) (rest : List Str) (h : WfSR sr) :
   | importing m =>
     simp only [SlotRange.intoStrings, List.cons_append, SlotRange.fromStrings, upper_importing_ne,
       upper_importing, if_true]
-    simpa using taggedRest_rt .importing rl m rest h.1 h.2
+    simpa [SlotRange.compacted] using taggedRest_rt .importing rl m rest h.1 h.2
   | none =>
     simp only [SlotRange.intoStrings]
-    have hp := RangeList.parse_toStrings rl rest h.1
+    have hp := RangeList.parse_toStrings_bd rl rest h.1
     unfold RangeList.toStrings at hp ⊢
     simp only [List.cons_append] at hp ⊢
     simp only [SlotRange.fromStrings, upperA_decimal_ne_migrating, upperA_decimal_ne_importing]
-    simp [hp]
+    simp [hp, SlotRange.compacted]
+
+/-- **slot range round trip** (with any continuation of the input) -/
+theorem SlotRange.rt (sr : SlotRange) (rest : List Str) (h : WfSR sr) :
+    SlotRange.fromStrings (sr.intoStrings ++ rest) = some (sr, rest) := by
+  rw [SlotRange.rt_bd sr rest h.bd, h.compacted]
 
 theorem taggedRest_append (mk : MigrationMeta → Tag) (ts : List Str) (sr : SlotRange) (rest ext : List Str)
     (h : taggedRest mk ts = some (sr, rest)) : taggedRest mk (ts ++ ext) = some (sr, rest ++ ext) := by
